@@ -15,6 +15,19 @@ CHECKS = {
              "assumed within 1e-12 relative (checked on every sampled case, not proved).",
         technique="Lean 4 proof over translator-generated tables + differential correspondence",
         design="§6 C06"),
+    "C16": dict(
+        text="Lean theorems on the hand-written model of coarsegrain.py (validity tests, aggregation / spreading subscripts and "
+             "statement inventory regenerated from the source): documented validity rules <-> accepted; volume, species totals, "
+             "environments, chemostat flags of every group; un-coarse-graining spreads evenly, preserves group totals, zero on "
+             "dropped cells (see Props/C16.lean for which are proved in full and which are `_partial`). Tie: translator "
+             "CoarsePy/IndexPy + correspondence (ops coarsegrain, cg_check, uncoarsegrain) + brute-force aggregation oracle on "
+             "the real code (face-sharing pairs, shared-face counts, centroid distances from cell coordinates), identity map "
+             "versus plain simulation on the three rebuilt engines.",
+        note="Lean kernel + {propext, Classical.choice, Quot.sound}; translator; cube / square roots compared to the exact model "
+             "within 1e-9 (distances squared); edge-structure and identity-map statements are established by the correspondence "
+             "and the oracle, not proved for all inputs.",
+        technique="Lean 4 proof over translator-generated formulas + differential correspondence",
+        design="§6 C16"),
     "C17": dict(
         text="Lean theorems: point accessor = flat index sample*nspecies*ncells + species*ncells + cell (generated formula); "
              "per-sample state, per-cell trajectory, whole-state block and merged trajectory of the model (numpy C-order reshape as "
